@@ -41,6 +41,9 @@ def _scores(tier):
     out.append(("first_bar_opens_with_an_eighth_rest", lambda: G.build_part("P1", 4, notes=[("n0", 2, 2, "C", None, 4, 1, 1), ("n1", 4, 4, "D", None, 4, 1, 1), ("n2", 8, 8, "E", None, 4, 1, 1),
                                                                                            ("n3", 16, 8, "F", None, 4, 1, 1), ("n4", 24, 8, "G", None, 4, 1, 1)],
                                                                          rests=[("r0", 0, 2, 1, 1)], key=(0, "major"), measures=[(0, 16), (16, 32)])))
+    out.append(("notes_on_the_beat_shorter_than_the_beat_followed_by_rests", lambda: G.build_part("P1", 12, notes=[("n0", 0, 6, "C", None, 4, 1, 1), ("n1", 12, 3, "D", None, 4, 1, 1), ("n2", 24, 4, "E", None, 4, 1, 1),
+                                                                                                                   ("n3", 36, 12, "F", None, 4, 1, 1), ("n4", 48, 48, "G", None, 4, 1, 1)],
+                                                                                               rests=[("r0", 6, 6, 1, 1), ("r1", 15, 9, 1, 1), ("r2", 28, 8, 1, 1)], key=(0, "major"), measures=[(0, 48), (48, 96)])))
     if tier == "thorough":
         out.append(("grace", lambda: G.build_part("P1", 4, notes=[("n0", 0, 8, "C", None, 4, 1, 1), ("n1", 8, 8, "D", None, 4, 1, 1)], graces=[("g0", 8, "E", None, 4, 1, 1, "n1")], measures=[(0, 16)])))
     return out
